@@ -46,13 +46,19 @@ def explore(ctx, art):
         lines.append("discover %d dup" % n)
     for n in ([1, 2, 4] if thorough else [2]):
         lines.append("discover %d failsend" % n)
+    # responders that answer block-wise (two blocks): the per-responder connection fetches the second block with the discovery
+    # request it finds by token (udp/server multicastRequests); the receiver must get one complete body per responder
+    for n in ([1, 2, 4] if thorough else [2]):
+        lines.append("discover %d bw" % n)
     impl = common.run_test_harness(ctx, art["test"], "TestC10", lines, timeout=600)
     if impl is None or len(impl) != len(lines):
         return
     model = judge = None
     if art.get("driver"):
-        rc, model, _ = common.pipe_lines([art["driver"], "model"], lines)
-        rc2, judge, _ = common.pipe_lines([art["driver"], "judge"], [l + " | " + o for l, o in zip(lines, impl)])
+        # `discover n bw` is `discover n` for the model and the judge: block-wise delivery is below them
+        dl = [l[:-3] if l.startswith("discover ") and l.endswith(" bw") else l for l in lines]
+        rc, model, _ = common.pipe_lines([art["driver"], "model"], dl)
+        rc2, judge, _ = common.pipe_lines([art["driver"], "judge"], [l + " | " + o for l, o in zip(dl, impl)])
         if rc or rc2 or len(model) != len(lines) or len(judge) != len(lines):
             ctx.broken.append(("model", "C10 driver run failed", ""))
             model = judge = None
